@@ -391,6 +391,202 @@ def _doc_paths():
     return run
 
 
+
+# ------------------------------------------------------------------ modelled storage sites (Strings/Sites.v)
+SITE_IMPORTS = ["Base.Prelude", "Psd.Codec", "Psd.Model", "Psd.Descriptor", "Psd.Linked", "Psd.Patterns", "Psd.Adjust",
+                "Strings.Sites", "Strings.SitesCorr"]
+
+
+def u32(b):
+    return int.from_bytes(b, "big")
+
+
+def olit(o, f=str):
+    return "None" if o is None else "(Some %s)" % f(o)
+
+
+def flat_strings(strs):
+    out = []
+    for s in strs:
+        out += [len(s)] + s
+    return out
+
+
+def _written(obj, **kw):
+    fp = io.BytesIO()
+    n = obj.write(fp, **kw)
+    return n, fp.getvalue()
+
+
+def site_cases(ck, pool, thorough):
+    """yield (label, codec id, terms, Coq literal of the sval, thunk -> canonical implementation outcome).
+    The outcome: [0, written, bytes..., 0, strings read back (length-prefixed)...] or [error code]."""
+    from psd_tools.constants import Resource, Tag
+    from psd_tools.psd import descriptor as D, image_resources as IR, linked_layer as LL, patterns as PT, tagged_blocks as TB
+    from psd_tools.psd.base import StringElement
+
+    rng = ck.rng
+
+    def run(write, read):
+        def thunk():
+            try:
+                with warnings.catch_warnings():
+                    warnings.simplefilter("ignore")
+                    n, b = write()
+            except Exception as e:
+                return [exc_code(e)]
+            out = [0, n] + list(b)
+            try:
+                with warnings.catch_warnings():
+                    warnings.simplefilter("ignore")
+                    strs = read(b)
+                return out + [0] + flat_strings([cps(s) for s in strs])
+            except Exception as e:
+                return out + [exc_code(e)]
+        return thunk
+
+    short = [l for l in pool if len(l) <= 8]
+    longs = [l for l in pool if len(l) > 8]
+    safe = [[], [0x61], [0xE9, 0x00], [0x61, 0x2D, 0x31], [0x2014, 0xE9, 0x61], [0x7F, 0x20], [0x61] * 255]   # mac_roman, <= 255 bytes
+
+    def pick():
+        return rng.choice(short)
+
+    def pick_many(k):
+        """k strings for one structure: short ones, at most one long (keeps the Coq literals small)"""
+        r = [rng.choice(short) for _ in range(k)]
+        if longs and rng.randrange(5) < 2:
+            r[rng.randrange(k)] = rng.choice(longs)
+        return r
+
+    singles = pool if thorough else pool[:: 2] + pool[-30:]
+    # --- one string per site
+    for l in singles:
+        s = S(l)
+        for pad in (1, 2, 4):
+            yield ("StringElement", 0, [], "(VString %d %s)" % (pad, zlist(l)),
+                   run(lambda s=s, pad=pad: _written(StringElement(s), padding=pad),
+                       lambda b, pad=pad: [StringElement.read(io.BytesIO(b), padding=pad).value]))
+            yield ("TaggedBlock[luni]", 0, [], "(VBlockString 1 %d %d %d %s)" % (pad, u32(b"8BIM"), u32(b"luni"), zlist(l)),
+                   run(lambda s=s, pad=pad: _written(TB.TaggedBlock(key=Tag.UNICODE_LAYER_NAME, data=StringElement(s)), version=1, padding=pad),
+                       lambda b, pad=pad: [TB.TaggedBlock.read(io.BytesIO(b), version=1, padding=pad).data.value]))
+        rname = rng.choice(safe) if rng.randrange(4) else l
+        cid = rng.choice([0, 0, 3, 2])
+        enc = {0: "macroman", 2: "ascii", 3: "utf_8"}[cid]
+        yield ("ImageResource[StringElement]", cid, [], "(VResString %d %d %s %s)" % (u32(b"8BIM"), Resource.WORKFLOW_URL.value, zlist(rname), zlist(l)),
+               run(lambda s=s, rname=rname, enc=enc: _written(IR.ImageResource(key=Resource.WORKFLOW_URL, name=S(rname), data=StringElement(s)), encoding=enc),
+                   lambda b, enc=enc: (lambda r: [r.name, r.data.value])(IR.ImageResource.read(io.BytesIO(b), encoding=enc))))
+        # descriptor leaves
+        cidb = rng.choice([b"Lyr ", b"null", b"myClass", b"x"])
+        terms = [list(k) for k in {cidb, b"Ordn", b"Trgt", b"Nm  "} if len(k) == 4 and k in D._TERMS]
+        kl = zlist(list(cidb))
+        nm = lambda o: [o.name]
+        for lab, lit, mk, rd in (
+            ("descriptor.String", "(DString %s)" % zlist(l), lambda s=s: D.String(s), lambda o: [o.value]),
+            ("descriptor.Class1", "(DClass OS_type %s %s)" % (zlist(l), kl), lambda s=s: D.Class1(s, cidb), nm),
+            ("descriptor.Class2", "(DClass OS_GlbC %s %s)" % (zlist(l), kl), lambda s=s: D.Class2(s, cidb), nm),
+            ("descriptor.Class3", "(DClass OS_Clss %s %s)" % (zlist(l), kl), lambda s=s: D.Class3(s, cidb), nm),
+            ("descriptor.Property", "(DProperty %s %s %s)" % (zlist(l), kl, zlist(list(b"Nm  "))), lambda s=s: D.Property(s, cidb, b"Nm  "), nm),
+            ("descriptor.EnumeratedReference", "(DEnumRef %s %s %s %s)" % (zlist(l), kl, zlist(list(b"Ordn")), zlist(list(b"Trgt"))),
+             lambda s=s: D.EnumeratedReference(s, cidb, b"Ordn", b"Trgt"), nm),
+            ("descriptor.Offset", "(DOffset %s %s 5)" % (zlist(l), kl), lambda s=s: D.Offset(s, cidb, 5), nm),
+        ):
+            yield (lab, 0, terms, "(VDesc %s)" % lit,
+                   run(lambda mk=mk: _written(mk()), lambda b, mk=mk, rd=rd: rd(type(mk()).read(io.BytesIO(b)))))
+        l2 = pick()
+        lp = rng.choice(safe) if rng.randrange(4) else pick()
+        yield ("descriptor.Name", 0, terms, "(VDesc (DName %s %s %s))" % (zlist(l), kl, zlist(l2)),
+               run(lambda s=s, l2=l2: _written(D.Name(s, cidb, S(l2))),
+                   lambda b: (lambda o: [o.name, o.value])(D.Name.read(io.BytesIO(b)))))
+        lq = rng.choice(safe)
+        yield ("AlphaNamesPascal", 0, [], "(VAlphaP [%s; %s])" % (zlist(lq), zlist(lp)),
+               run(lambda lq=lq, lp=lp: _written(IR.AlphaNamesPascal([S(lq), S(lp)])), lambda b: list(IR.AlphaNamesPascal.read(io.BytesIO(b)))))
+        yield ("AlphaNamesPascal", 0, [], "(VAlphaP [%s; %s])" % (zlist(l), zlist(lp)),
+               run(lambda s=s, l2=lp: _written(IR.AlphaNamesPascal([s, S(l2)])),
+                   lambda b: list(IR.AlphaNamesPascal.read(io.BytesIO(b)))))
+    # --- structures with several strings
+    for _ in range(600 if thorough else 150):
+        a, b_, c, d_, e, f_, g = pick_many(7)
+        k1 = rng.choice([b"Nm  ", b"keyA", b"longerKey"])
+        k2 = rng.choice([b"Txt ", b"k2", b"anotherKey"])
+        cidb = rng.choice([b"null", b"Lyr ", b"clsX1"])
+        used = {k1, k2, cidb, b"Lyr "}
+        terms = [list(k) for k in sorted(used) if len(k) == 4 and k in D._TERMS]
+        kz = lambda k: zlist(list(k))
+        inner_lit = "(DDesc OS_Objc %s %s [(%s, DString %s); (%s, DName %s %s %s)])" % (zlist(c), kz(cidb), kz(k1), zlist(d_), kz(k2), zlist(e), kz(b"Lyr "), zlist(f_))
+        mk_inner = lambda: D.Descriptor(name=S(c), classID=cidb, items=[(k1, D.String(S(d_))), (k2, D.Name(S(e), b"Lyr ", S(f_)))])
+        outer_lit = "(DDesc OS_Objc %s %s [(%s, DString %s); (%s, DList OS_VlLs [%s; DString %s; DClass OS_Clss %s %s])])" % (
+            zlist(a), kz(cidb), kz(k1), zlist(b_), kz(k2), inner_lit, zlist(g), zlist(a), kz(b"Lyr "))
+        mk_outer = lambda: D.Descriptor(name=S(a), classID=cidb, items=[
+            (k1, D.String(S(b_))), (k2, D.List([mk_inner(), D.String(S(g)), D.Class3(S(a), b"Lyr ")]))])
+
+        def dstrings(o):
+            if isinstance(o, (D.Descriptor,)):
+                r = [o.name]
+                for k in o:
+                    r += dstrings(o[k])
+                return r
+            if isinstance(o, D.List):
+                r = []
+                for x in o:
+                    r += dstrings(x)
+                return r
+            if isinstance(o, D.Name):
+                return [o.name, o.value]
+            if isinstance(o, D.String):
+                return [o.value]
+            return [o.name]
+
+        if k1 != k2:
+            yield ("descriptor.Descriptor(nested)", 0, terms, "(VDesc %s)" % outer_lit,
+                   run(lambda mk_outer=mk_outer: _written(mk_outer()), lambda b: dstrings(D.Descriptor.read(io.BytesIO(b)))))
+            pad = rng.choice([1, 2, 4])
+            yield ("DescriptorBlock", 0, terms, "(VDescBlock %d (DBlock 16 %s))" % (pad, inner_lit),
+                   run(lambda mk_inner=mk_inner, pad=pad: _written(D.DescriptorBlock(name=S(c), classID=cidb, items=list(mk_inner().items()), version=16), padding=pad),
+                       lambda b: dstrings(D.DescriptorBlock.read(io.BytesIO(b)))))
+        yield ("AlphaNamesUnicode", 0, [], "(VAlphaU [%s; %s; %s])" % (zlist(a), zlist(b_), zlist(c)),
+               run(lambda a=a, b_=b_, c=c: _written(IR.AlphaNamesUnicode([S(a), S(b_), S(c)])), lambda b: list(IR.AlphaNamesUnicode.read(io.BytesIO(b)))))
+        yield ("URLList", 0, [], "(VURLList [(1, 2, %s); (4000000000, 0, %s)])" % (zlist(a), zlist(b_)),
+               run(lambda a=a, b_=b_: _written(IR.URLList([IR.URLItem(1, 2, S(a)), IR.URLItem(4000000000, 0, S(b_))])),
+                   lambda b: [x.name for x in IR.URLList.read(io.BytesIO(b))]))
+        hc = rng.randrange(2)
+        yield ("VersionInfo", 0, [], "(VVersionInfo (mkVI 1 %s %s %s 7))" % ("true" if hc else "false", zlist(a), zlist(b_)),
+               run(lambda a=a, b_=b_, hc=hc: _written(IR.VersionInfo(1, bool(hc), S(a), S(b_), 7)),
+                   lambda b: (lambda o: [o.writer, o.reader])(IR.VersionInfo.read(io.BytesIO(b)))))
+        origin = rng.choice([0, 1, 2])
+        sid2 = rng.choice([2, 15, 17, 4000000000])
+        sl1 = "(mkSlice [1; 0; %d] %s %s [3; 0; 0; 10; 10] %s %s %s %s %s %s [1; 2; 255; 1; 2; 3])" % (
+            origin, "(Some 9)" if origin == 1 else "None", zlist(b_), zlist(c), zlist(d_), zlist(e), zlist(f_), "true" if hc else "false", zlist(g))
+        sl2 = "(mkSlice [%d; 0; 0] None %s [0; 0; 0; 0; 0] [] [] [] [] false [] [0; 0; 0; 0; 0; 0])" % (sid2, zlist(a))
+        yield ("Slices(v6)", 0, [], "(VSlices (mkSlices [0; 0; 20; 20] %s [%s; %s]))" % (zlist(a), sl1, sl2),
+               run(lambda a=a, b_=b_, c=c, d_=d_, e=e, f_=f_, g=g, origin=origin, sid2=sid2, hc=hc: _written(IR.Slices(version=6, data=IR.SlicesV6(
+                   bbox=[0, 0, 20, 20], name=S(a), items=[
+                       IR.SliceV6(slice_id=1, group_id=0, origin=origin, associated_id=9 if origin == 1 else None, name=S(b_), slice_type=3, bbox=[0, 0, 10, 10],
+                                  url=S(c), target=S(d_), message=S(e), alt_tag=S(f_), cell_is_html=bool(hc), cell_text=S(g),
+                                  horizontal_align=1, vertical_align=2, alpha=255, red=1, green=2, blue=3),
+                       IR.SliceV6(slice_id=sid2, name=S(a))]))),
+                   lambda b: (lambda o: [o.data.name] + [x for it in o.data.items for x in (it.name, it.url, it.target, it.message, it.alt_tag, it.cell_text)])(IR.Slices.read(io.BytesIO(b)))))
+        ver = rng.choice([5, 6, 7, 1, 4])
+        uu = rng.choice([a, rng.choice(safe), rng.choice(safe), [0x61] * 256])
+        child = "(Some %s)" % zlist(c) if ver >= 5 else "None"
+        mod = "(Some 4607182418800017408)" if ver >= 6 else "None"
+        lock = "(Some 1)" if ver >= 7 else "None"
+        yield ("LinkedLayer", 0, [], "(VLinked (mkLinked K_liFD %d %s %s 0 0 None None None None (Some [120; 121; 122]) %s %s %s))" % (ver, zlist(uu), zlist(b_), child, mod, lock),
+               run(lambda uu=uu, b_=b_, c=c, ver=ver: _written(LL.LinkedLayer(kind=LL.LinkedLayerType.DATA, version=ver, uuid=S(uu), filename=S(b_), data=b"xyz",
+                                                                          child_id=S(c) if ver >= 5 else None, mod_time=1.0 if ver >= 6 else None, lock_state=1 if ver >= 7 else None)),
+                   lambda b: (lambda o: [o.uuid, o.filename] + ([o.child_id] if o.child_id is not None else []))(LL.LinkedLayer.read(io.BytesIO(b)))))
+        pid = rng.choice([a, [0x69, 0x64], [], [0x61, 0, 0x7F], [0x61] * 255, [0x61] * 256, [0xE9]])
+        yield ("Pattern", 2, [], "(VPattern (mkPattern 1 3 (1, -2) %s %s None (mkVMAL 3 [0; 0; 1; 1] [VmaSkipped; VmaSkipped])))" % (zlist(b_), zlist(pid)),
+               run(lambda b_=b_, pid=pid: _written(PT.Pattern(version=1, image_mode=3, point=(1, -2), name=S(b_), pattern_id=S(pid),
+                                                               data=PT.VirtualMemoryArrayList(3, (0, 0, 1, 1), [PT.VirtualMemoryArray(), PT.VirtualMemoryArray()]))),
+                   lambda b: (lambda o: [o.name, o.pattern_id])(PT.Pattern.read(io.BytesIO(b)))))
+
+
+def site_lit(a):
+    cid, terms, lit = a
+    return "(%d, %s, %s)" % (cid, core.zlistlist(terms), lit)
+
+
 # ------------------------------------------------------------------ known findings
 def noninjective(enc):
     """code points the codec encodes but does not decode back (computed from the live codec)"""
@@ -552,7 +748,7 @@ def run():
                "(unicode codec) and x padding x {macroman, maccyrillic, utf_8, shift_jis, ascii} (pascal codec); readers also get "
                "truncated / cross-padding / random bytes; concrete Coq codecs vs Python on every code point; "
                "non-trivial = distinct string with a non-ASCII code point or at a critical length")
-    ok = ck.coq_build(["theories/Strings/Corr.v", "theories/Strings/Main.v", "theories/Properties/C19.v"])
+    ok = ck.coq_build(["theories/Strings/Corr.v", "theories/Strings/Main.v", "theories/Strings/SitesCorr.v", "theories/Properties/C19.v"])
     if ok:
         ck.collect_theorems("C19.v")
     strs = list(gen_strings(ck)) + list(gen_random_strings(ck, 3000 if thorough else 500, ALPH + EXTRA))
@@ -772,6 +968,28 @@ def run():
     bad = ck.correspond("name_read", "name_read", IMPORTS, nrcases, lambda a: "(%s, %s, %s)" % (zlist(a[0]), zlist(a[1]), opt_lit(a[2])), chunk=2500)
     for i in bad[:3]:
         ck.notes.append("read_name_part model/impl differ on %r: impl %r" % (nrcases[i][0], nrcases[i][1]))
+
+    # ---------------- the storage sites modelled in Strings/Sites.v: model bytes / count / read-back vs implementation
+    spool = [sd_list(d) for d in gen_strings(ck, ALPH, 2)] + [sd_list(d) for d in gen_strings(ck, EXTRA, 1)]
+    spool += [[0x61] * 255, [0x61] * 256, [0xE9] * 255, [0x1F600] * 128, [0x61, 0x1F600] * 64, [0xD83D, 0xDE00], [0xDE00, 0xD83D, 0x61]]
+    spool += [sd_list(d) for d in gen_random_strings(ck, 40, ALPH + EXTRA)]
+    scases = []
+    for label, cid, terms, lit, thunk in site_cases(ck, spool, thorough):
+        out = thunk()
+        scases.append(((cid, terms, lit), [h63_list(0, out)]))
+        ck.count("modelled-site:" + label + (":refused" if len(out) == 1 else ""))
+    bad = ck.correspond("sites", "site_case", SITE_IMPORTS, scases, site_lit, chunk=250)
+    for i in bad[:5]:
+        ck.notes.append("site model/impl differ on %s" % (scases[i][0][2][:300],))
+    # witnesses of all_sites_without_pascal_guard_refuted, replayed on the implementation
+    from psd_tools.psd import image_resources as _IR
+    for w, code in (("a" * 256, 6), ("\u0416", 1)):
+        try:
+            _IR.AlphaNamesPascal([w]).tobytes()
+            got = 0
+        except Exception as e:
+            got = exc_code(e)
+        ck.obligations.append(("refuted-witness:all_sites_without_pascal_guard:%d" % code, got == code, "" if got == code else "outcome %r" % got))
 
     # ---------------- every storage site reachable through public classes (oracle on the implementation)
     sites = _sites()
